@@ -432,7 +432,7 @@ func conclude(p *Prop, tier string, seed int64, m *Merged) int {
 	cov := map[string]any{
 		"evaluations":         m.Evaluations,
 		"distinct_nontrivial": m.Nontrivial,
-		"rule":                p.Rule,
+		"rule":                p.Rule + " The directed families added while validating against independently seeded changes (DESIGN.md section 10) run in every tier as well; the counters and sets of this file show what they covered.",
 		"samples":             m.Samples,
 		"exhaustive":          false,
 		"inconclusive":        m.Inconclusive,
